@@ -60,6 +60,9 @@ class BackupManager:
             backup_name = self.DEFAULT_BACKUP_NAME
         if self.backups_dict and backup_name in self.backups_dict:
             return False
+        # The dictionary dates from construction: also refuse a name that is on disk by now.
+        if os.path.lexists(os.path.join(self.backups_path, backup_name)):
+            return False
         backup = {}
         time_stamp = f"{str(datetime.now())}"
         if verbose:
